@@ -144,3 +144,39 @@ package config
 //@              dst[i].Label == old(match[i].Label) && dst[i].Annotation == old(match[i].Annotation) && dst[i].Command == old(match[i].Command) &&
 //@              dst[i].For == old(match[i].For) && dst[i].KeepFiringFor == old(match[i].KeepFiringFor)
 //@   safe
+
+// ---------------------------------------------------------------------------------------------
+// C08: every check is switched on and off by the name it reports under.
+// check.Reporter() in a specification is the value of the real Reporter() method of the check's dynamic type
+// (dispatch over all implementations in pint).
+
+//@ func baseParsedRule [C08]
+//@   requires name == check.Reporter()
+//@   ensures result.name == name && result.check == check && result.match == match && result.tags == tags && !result.locked
+
+//@ func newParsedRule [C08]
+//@   requires name == check.Reporter()
+//@   ensures result.name == name && result.check == check && result.tags == tags && result.locked == rule.Locked && result.ignore == rule.Ignore
+
+// Registration sites: the precondition above is an obligation at every call.
+//@ func baseRules [C08]
+//@ func parseRule [C08]
+//@ func Config.GetChecksForEntry [C08]
+
+// The enable decision. disabledByComment captures the answer of isDisabledForRule (rule-level control comments).
+//@ func isEnabled [C08, C07]
+//@   ghost commentRes bool
+//@   ghost commentAsked bool
+//@   after call isDisabledForRule set commentRes = result0
+//@   after call isDisabledForRule set commentAsked = true
+//@   ensures check.Meta().AlwaysEnabled ==> result
+//@   ensures !check.Meta().AlwaysEnabled && (exists i int :: 0 <= i && i < len(disabledChecks) && (disabledChecks[i] == name || disabledChecks[i] == check.String())) ==> !result
+//@   ensures !check.Meta().AlwaysEnabled && len(enabledChecks) > 0 && (forall i int :: 0 <= i && i < len(enabledChecks) ==> enabledChecks[i] != name) ==> !result
+//@   ensures !check.Meta().AlwaysEnabled && !locked ==> commentAsked && (commentRes ==> !result)
+//@   ensures locked ==> !commentAsked
+//@   ensures !check.Meta().AlwaysEnabled && (locked || !commentRes) && len(disabledChecks) == 0 &&
+//@              (len(enabledChecks) == 0 || (exists i int :: 0 <= i && i < len(enabledChecks) && enabledChecks[i] == name)) ==> result
+//@   loop 1 invariant 0 <= iter && iter <= len(disabledChecks)
+//@   loop 1 invariant forall i int :: 0 <= i && i < iter ==> disabledChecks[i] != name && disabledChecks[i] != check.String()
+//@   loop 3 invariant 0 <= iter && iter <= len(enabledChecks)
+//@   loop 3 invariant forall i int :: 0 <= i && i < iter ==> enabledChecks[i] != name
